@@ -227,6 +227,16 @@ class Analyzer:
       for a in args:
         el = join(el, a.own)
       return Val(FRESH, join(el, recv.elem if recv.own == FRESH else PARAM))
+    if isinstance(e.func, ast.Name) and e.func.id in DONATING and e.func.id not in self.env:
+      # a donating jax.jit / jax.pmap wrapper: the donated buffers are deleted, so they must have been created here
+      for i in DONATING[e.func.id]:
+        if i < len(e.args):
+          v = args[i]
+          ok = v.own == FRESH and v.elem == FRESH
+          self.sites.append(Site(self.qualname, e.lineno, f'donate[{i}] {ast.unparse(e.args[i])} -> {e.func.id}()', ok,
+                                 f'argument {i} of the donating call {e.func.id}() is ' + (
+                                     'created in this function' if ok else
+                                     "reachable from an argument or a free variable: the caller's buffers would be deleted")))
     if isinstance(e.func, ast.Name):
       fn = e.func.id
       if fn == 'next' and e.args:
@@ -354,6 +364,36 @@ class Analyzer:
 
 
 FACTORY_MARKERS = {'apply', 'init', 'client_init', 'client_step', 'client_final'}
+DONATING = {}   # name -> donated positions, for `name = jax.jit(f, donate_argnums=...)` inside the function being analysed
+
+
+def donating_wrappers(fdef):
+  out = {}
+
+  def positions(call):
+    for k in call.keywords:
+      if k.arg == 'donate_argnums':
+        try:
+          v = ast.literal_eval(k.value)
+        except Exception:
+          return None
+        return tuple(v) if isinstance(v, (tuple, list)) else (v,)
+    return None
+  for n in ast.walk(fdef):
+    if isinstance(n, ast.Assign) and isinstance(n.value, ast.Call) and len(n.targets) == 1 and isinstance(n.targets[0], ast.Name):
+      f = ast.unparse(n.value.func)
+      if f in ('jax.jit', 'jax.pmap'):
+        pos = positions(n.value)
+        if pos:
+          out[n.targets[0].id] = pos
+    if isinstance(n, ast.FunctionDef):
+      for d in n.decorator_list:
+        if isinstance(d, ast.Call) and ast.unparse(d.func) in ('functools.partial', 'partial') and d.args and \
+            ast.unparse(d.args[0]) in ('jax.jit', 'jax.pmap'):
+          pos = positions(d)
+          if pos:
+            out[n.name] = pos
+  return out
 
 
 def analyze_function(fdef, qualname, outer=None):
@@ -364,6 +404,9 @@ def analyze_function(fdef, qualname, outer=None):
   analysed as roots (free variables = somebody else's state).  Functions nested
   in anything else see their parent's per-call locals."""
   out_sites, out_nondet = [], []
+  if outer is None and '<locals>' not in qualname:
+    DONATING.clear()
+    DONATING.update(donating_wrappers(fdef))
   a = Analyzer(fdef, qualname, outer)
   out_sites += a.run()
   out_nondet += [(qualname,) + x for x in a.nondet]
